@@ -50,6 +50,7 @@ PAYLOADS = ["a", "a'b", 'a"b', "a\\b", "é", ""]
 # (filled from the unchanged tree; a changed hash makes the check re-validate the hand model by
 # correspondence and say so in the evidence — it is not by itself a violation)
 PINNED_FILE = os.path.join(VERIF, "lib", "props", "C18_pinned.json")
+SUPPORT_FILE = os.path.join(VERIF, "lib", "props", "C18_support.json")
 
 
 def _bx(fn, *a, **k):
@@ -678,6 +679,35 @@ def dynamic(run, tr, sh, thorough):
                         D["viol"].append({"kind": what, "value": v, "dialect": d, "context": ctx, "text": r["text"], "ref_text": c["ref"],
                                           "observed": o, "known": kc, "tag": tag,
                                           "corpus_sql": ce["sql"] if ce else None})
+    # support matrix: which dialects produce (certify) values of each constructor.  "A dialect that supports that
+    # type" is read off the reviewed tree (lib/props/C18_support.json); a pair that is lost -- the reference spelling
+    # of the constructor no longer parses to it under a dialect that used to -- is a regression of the property for
+    # that dialect, not a change of scope.
+    support = collections.defaultdict(set)
+    example = {}
+    for v, tag, ref, r in D["obs"]:
+        for g in r["groups"]:
+            for d in g["dialects"]:
+                if g.get("cert") or tag == "corpus":
+                    support[ctor_of(v)].add(d)
+                else:
+                    example.setdefault((ctor_of(v), d), (v, ref, r["text"], g))
+    try:
+        pinned_support = json.load(open(SUPPORT_FILE))
+    except FileNotFoundError:
+        pinned_support = {}
+    lost = [(c, d) for c, ds in sorted(pinned_support.items()) for d in ds if d not in support.get(c, set())]
+    for c, d in lost:
+        if (c, d) in example:
+            v, ref, text, g = example[(c, d)]
+            D["viol"].append({"kind": "support-lost", "value": v, "dialect": d, "context": "sa", "text": text, "ref_text": ref,
+                              "observed": g["sa"], "known": [], "tag": "support-matrix", "corpus_sql": None})
+    D["support"] = {c: sorted(ds, key=DIALECTS.index) for c, ds in sorted(support.items())}
+    if os.environ.get("C18_WRITE_SUPPORT") == "1":   # maintenance only: re-pin after a reviewed change
+        json.dump(D["support"], open(SUPPORT_FILE, "w"), indent=0, sort_keys=True)
+    D["support_lost"] = lost
+    run.notes["support_matrix"] = {"constructors": len(support), "pairs": sum(len(v) for v in support.values()), "pinned_pairs": sum(len(v) for v in pinned_support.values()),
+                                   "lost": ["%s/%s" % x for x in lost], "gained": ["%s/%s" % (c, d) for c, ds in sorted(support.items()) for d in ds if d not in pinned_support.get(c, [])]}
     run.add_eval(evals, nontrivial)
     run.notes["enumeration"] = {"values": len(vals), "by_kind": dict(collections.Counter(t for _, t in vals)),
                                 "corpus_type_values": len(corpus_types), "corpus_texts_scanned": len(tcases),
@@ -970,6 +1000,7 @@ def decide(run, tr, sh, pr, facts, facts_out, D, corr, pins):
             "what": {"certified-value-changed": "a data type value the parser produces prints to SQL that parses back to a different value",
                      "certified-value-rejected": "a data type value the parser produces prints to SQL that does not parse as a data type in this context",
                      "parsed-value-not-a-fixpoint": "the value obtained by parsing a printed data type does not itself survive print -> parse",
+                     "support-lost": "the reference spelling of a data type no longer parses to that type under a dialect that supported it: the printed value does not parse back to itself there",
                      "panic": "printing or parsing a data type panicked", "display-panic": "Display of a data type value panicked"}[f["kind"]],
             "call": CALLS[f["context"]],
             "fails_in_contexts": sorted({CALLS[g["context"]] for g in same_value}),
